@@ -1078,3 +1078,5 @@ RULE += (' Source branches are also instances of a user subclass of Source; plai
 RULE += (' Splits of stateless branches (Sources, per-value sequences) are also run twice at the '
          'same time: two run() generators of one object consumed alternately.')
 RULE += (' The bare iterable fill/compute branch rebinds its fill method on its first value.')
+
+RULE += (' Round 10: 5..14 branches and / or flows of 17..130 values with block sizes around powers of two and the flow length; Splits of one branch kind on 1001 / 2300 values stopping in different thousands; every kind of copy of the empty Split.')
